@@ -166,7 +166,7 @@ def parse_diagnostics(stderr_text, manifest, unit_lines, safety_clause):
         clause = None
         kind = "contract"
         if "postcondition not satisfied" in msg or "invariant not satisfied" in msg or "decreases not satisfied" in msg \
-                or "loop invariant" in msg:
+                or "loop invariant" in msg or "post-condition of closure" in msg:
             # the clause is in a non-primary span labelled "failed this ..." or in the primary
             for s in spans:
                 lab = (s.get("label") or "")
@@ -211,6 +211,9 @@ def scan_trusted(unit_text, unit_name):
     out = []
     lines = unit_text.splitlines()
     for i, l in enumerate(lines):
+        if l.strip().startswith("// TRANSCRIBED:"):
+            out.append("%s: transcribed dependency code (verified here, trusted to match its source) -> %s" % (
+                unit_name, l.strip()[len("// TRANSCRIBED:"):].strip()))
         for marker in ("external_body", "assume_specification", "assume(", "admit(", "uninterp spec fn", "proof fn axiom_"):
             if marker in l and not l.strip().startswith("//"):
                 # name = next line(s) with fn/struct
